@@ -101,3 +101,11 @@ func sample(sub, kind string, accepted bool, b []byte, extra string) {
 func eq(a, b []byte) bool { return bytes.Equal(a, b) }
 
 func hx(b []byte) string { return fmt.Sprintf("%x", b) }
+
+func hexInt(s string) *big.Int {
+	v, ok := new(big.Int).SetString(s, 16)
+	if !ok {
+		panic("bad hex " + s)
+	}
+	return v
+}
